@@ -140,7 +140,8 @@ def run(R, env):
             w2 = hctx.with_removed(rem | rem_ok).settle()
             from engine.analysis import success_exits
             succ = success_exits(w2)
-            R.ob("C12.R3", crate + ":no-nominee-no-success", n >= 1 and not succ, "with pending_owner = None a success exit is reachable (%s)" % [w2.body.loc(e["bb"]) for e in succ], fn=hk)
+            # (not vacuous: the handler can succeed when nothing is assumed about the nominee)
+            R.ob("C12.R3", crate + ":no-nominee-no-success", (n >= 1 or bool(success_exits(hctx))) and not succ, "with pending_owner = None a success exit is reachable (%s)" % [w2.body.loc(e["bb"]) for e in succ], fn=hk)
         # ---- R4
         shared.admin_writers(R, env, prog, crate, "C12.R4")
         sites = shared.site_contexts(prog, crate, env)
